@@ -115,8 +115,8 @@ func (st *ilState) freshReads() []*robs {
 			ans, hit, _ := w.qread(k)
 			w.ctl.VerifWait()
 			r := &robs{Op: fmt.Sprintf("q%d", k), Got: ans, Hit: hit}
-			if q := w.qm[k]; q != nil {
-				r.LM = q.lm
+			if _, q := w.qentry(k); q != nil {
+				r.LM = q.LastModified
 			}
 			out = append(out, r)
 		}
@@ -408,7 +408,7 @@ func Scenarios(thorough bool) []e1.Scenario {
 		ps = append(ps, IParams{Kind: "il", Config: sql, Pre: T("t1", "aJ+"), Threads: [][]string{T("rR1", "t0"), T("force"), T("a1s+")}, Post: T("aJ-")})
 		ps = append(ps, IParams{Kind: "il", Config: mem, Pre: T("t1", "aJ+"), Threads: [][]string{T("rR1"), T("t0"), T("force"), T("a1s+")}, Post: T("aJ-")})
 	}
-	// query cache (modelled entries)
+	// query cache: q<k> = DetermineInvalidationTime + the real graph.CachedCheckResolver over a scripted delegate
 	add(q, T("q0"), T("t0"), T("trig"), T("q0"))
 	add(q, T("t0", "trig", "aI+"), T("t0"), T("q0"))
 	add(q, T("q0", "t0"), T("trig"), T("a1s+"), T("q0"))
